@@ -1,5 +1,5 @@
 (* Run/Shape.v — evaluates the shape model (Model/Shape.v, repaired tree) on the harness's grid. *)
-Require Export BP.Model.Shape.
+Require Export BP.Model.Shape BP.Model.ShapeProver.
 Require Export ZArith.
 
 Definition class_of (o : outcome) : Z := match o with OPanic _ => 9%Z | _ => 0%Z end.
@@ -9,3 +9,7 @@ Definition grid_classes (l : list (nat * nat * nat * nat * nat * nat)) : list Z 
 
 Definition batch_classes (cap : nat) (l : list (list inst_shape)) : list Z :=
   map (fun b => class_of (batch_verify_shape true cap b)) l.
+
+(* proving side: 0 = Ok, 3 = InvalidGeneratorsLength, 9 = panic (codes of the harness) *)
+Definition prove_class (pcap cap n1 n : nat) : Z :=
+  match prove_shape pcap cap n1 n with OOk => 0%Z | OErr => 3%Z | OPanic _ => 9%Z end.
